@@ -93,13 +93,38 @@ async def _with_driver_ctx(w, body):
         await asyncio.gather(*pool.workers, return_exceptions=True)
 
 
-def run_scheduler(w, pool_name='standard', pick=None, only_inst=None):
+def run_scheduler(w, pool_name='standard', pick=None, only_inst=None, during=None):
     """One real PoolScheduler.schedule_loop_body() sweep; the fake pool hands an instance to the pick-th
-    runnable job the real queries yield (None = every job that fits)."""
+    runnable job the real queries yield (None = every job that fits).
+
+    `during` is what happens while the driver waits for the worker's answer to jobs/create, i.e. between
+    the in-memory reservation and the driver's own CALL schedule_job: None (worker accepts), 'started' /
+    'complete' (the worker's report for this very attempt is handled by the driver first), 'fail' (the POST
+    fails), 'reject' (the worker answers 403)."""
     from batch.driver.instance_collection.pool import ExceededSharesCounter, PoolScheduler
     import batch.driver.instance_collection.pool as poolmod
 
     sp = StubPool(w, pool_name, pick, only_inst)
+
+    async def responder(method, url, **kw):
+        if not url.endswith('/api/v1alpha/batches/jobs/create') or during is None:
+            return None
+        import aiohttp
+        from batch.driver import job as dj
+
+        body = kw['json']
+        j, att = body['job_id'], body['job_spec']['attempt_id']
+        assert only_inst is not None, 'a `during` event needs the instance to be fixed by the label'
+        inst = w.icm.instances[only_inst]
+        if during == 'fail':
+            raise aiohttp.ClientConnectionError('injected: worker unreachable')
+        if during == 'reject':
+            raise aiohttp.ClientResponseError(None, (), status=403, message='injected: attempt exists')
+        if during == 'started':
+            await dj.mark_job_started(w.app, body['batch_id'], j, att, inst, 10, [])
+        elif during == 'complete':
+            await dj.mark_job_complete(w.app, body['batch_id'], j, att, _group(w, j), inst.name, 'Success', None, 10, 20, 'completed', [])
+        return None
 
     async def body():
         ps = object.__new__(PoolScheduler)
@@ -119,10 +144,13 @@ def run_scheduler(w, pool_name='standard', pick=None, only_inst=None):
 
     saved = poolmod.secret_alnum_string
     poolmod.secret_alnum_string = sas
+    saved_responder = w.client_session.responder
+    w.client_session.responder = responder
     try:
         w.run(_with_driver_ctx(w, body))
     finally:
         poolmod.secret_alnum_string = saved
+        w.client_session.responder = saved_responder
     return {'asked': sp.calls}
 
 
@@ -323,7 +351,8 @@ def apply(w: BatchWorld, label) -> Dict[str, Any]:
         if kind == 'sched':
             pick = label[1] if len(label) > 1 else None
             only = label[2] if len(label) > 2 else None
-            return run_scheduler(w, 'standard', pick, only)
+            during = label[3] if len(label) > 3 else None
+            return run_scheduler(w, 'standard', pick, only, during)
         if kind == 'canceller':
             return run_canceller(w, {'ready': 'cancel_cancelled_ready_jobs_loop_body',
                                      'creating': 'cancel_cancelled_creating_jobs_loop_body',
